@@ -410,3 +410,36 @@ package ugo
 //@ func builtinDeleteFunc, builtinCopyFunc, builtinRepeatFunc, builtinLenFunc, builtinCapFunc, builtinSortFunc, builtinSortReverseFunc, builtinErrorFunc, builtinTypeNameFunc, builtinBoolFunc, builtinIntFunc, builtinUintFunc, builtinFloatFunc, builtinCharFunc, builtinStringFunc, builtinPrintlnFunc, builtinGlobalsFunc, builtinIsErrorFunc, builtinIsIntFunc, builtinIsUintFunc, builtinIsFloatFunc, builtinIsCharFunc, builtinIsBoolFunc, builtinIsStringFunc, builtinIsBytesFunc, builtinIsMapFunc, builtinIsSyncMapFunc, builtinIsArrayFunc, builtinIsUndefinedFunc, builtinIsFunctionFunc, builtinIsCallableFunc, builtinIsIterableFunc
 //@ requires $args
 //@ property C19
+
+// ---------------------------------------------------------------------------
+// C12: every module name gets one module index, below the module count and
+// different from every other module's index (so all imports of a module use
+// the same cache slot and no two modules share one); importing a builtin
+// module hands out a copy, never the shared attribute map.
+
+//@ func (*moduleStore).addModule
+//@ params ms name typ constIndex
+//@ results r
+//@ requires msInv(ms) && !specHasModule(ms, name) && ms.count < 1<<40
+//@ ensures[inv]    msInv(ms)
+//@ ensures[index]  r.moduleIndex == old(ms.count) && ms.count == old(ms.count)+1 && r.constantIndex == constIndex && r.typ == typ
+//@ ensures[stored] specHasModule(ms, name) && ms.store[name] == r
+//@ modifies ms.count, ms.store, ms.store[*]
+//@ property C12
+
+//@ func (*moduleStore).getModule
+//@ params ms name
+//@ results r ok
+//@ requires ms != nil
+//@ ensures ok == specHasModule(ms, name) && (ok ==> r == ms.store[name])
+//@ property C12
+
+//@ func (*BuiltinModule).Import
+//@ params m moduleName
+//@ results r err
+//@ requires m != nil
+//@ ensures[err]   (err != nil) == (m.Attrs == nil)
+//@ ensures[copy]  err == nil ==> specIsFreshMap(r, m.Attrs)
+//@ ensures[name]  err == nil ==> specMapHas(r, AttrModuleName, String(moduleName))
+//@ ensures[attrs] verifrt.SameRef(m.Attrs, old(m.Attrs))
+//@ property C12
